@@ -135,7 +135,16 @@ def app_from(ns, r, marks=None):
                     marks["invoked"] = marks.get("invoked", 0) + 1
                 if r.get("raise") == "before-start":
                     raise BodyError("app failed before start")
-                start_response(f"{status} {r.get('reason', 'Whatever')}", list(headers))
+                if r.get("restart"):
+                    # PEP 3333: start_response may be called again with exc_info before any body was sent
+                    start_response("200 OK", [("Set-Cookie", "abandoned=1"), ("X-Abandoned", "1")])
+                    try:
+                        raise BodyError("late failure")
+                    except BodyError:
+                        import sys as _sys
+                        start_response(f"{status} {r.get('reason', 'Whatever')}", list(headers), _sys.exc_info())
+                else:
+                    start_response(f"{status} {r.get('reason', 'Whatever')}", list(headers))
                 if r.get("raise") == "after-start":
                     raise BodyError("app failed after start")
                 if shape == "list":
@@ -248,7 +257,8 @@ def gen_response(rng, files=None, allow_sse=True, allow_raise=False):
         f = rng.choice(files)
         r["path"] = f
         if rng.random() < 0.3:
-            r["download_name"] = rng.choice(["report.pdf", "a b.txt", "data.bin"])
+            r["download_name"] = rng.choice(["report.pdf", "a b.txt", "data.bin", "tab\there.txt", "esc\x1b.bin", "del\x7f.txt", "q\"uote.txt", "bs\\lash", "caf\xe9.txt",
+                                             "\u6587\u4ef6.bin", "semi;colon.txt", "x\x01y", "percent%41.txt"])
         if rng.random() < 0.3:
             r["content_type"] = rng.choice(["text/plain", "application/octet-stream", "image/png"])
         r["chunk_size"] = rng.choice([1, 3, 8, 64, 4096 * 64]) if os.path.getsize(f) < 1000 else rng.choice([4096, 65536, 4096 * 64])
@@ -269,10 +279,12 @@ def gen_raw(rng):
                        [("X-A", "1"), ("X-A", "2"), ("x-b", "3")], [("Content-Type", "text/plain"), ("Set-Cookie", "a=1; Path=/"), ("Set-Cookie", "b=2; HttpOnly")]])
     return {"app": "raw", "status": rng.choice([200, 201, 404, 418, 599]), "headers": hdrs,
             "chunks": [rng.choice([b"hello", b"world", b"", b"\x00\xff"]) for _ in range(n)],
-            "shape": rng.choice(["list", "tuple", "generator", "closing"]), "one_event": rng.random() < 0.5, "minimal_last": rng.random() < 0.3}
+            "shape": rng.choice(["list", "tuple", "generator", "closing"]), "one_event": rng.random() < 0.5, "minimal_last": rng.random() < 0.3,
+            "restart": rng.random() < 0.15}
 
 
-RANGE_HEADERS = [None, "bytes=0-0", "bytes=1-3", "bytes=-2", "bytes=2-", "bytes=0-1,3-4", "bytes=0-1,1-2", "bytes=9999-", "bytes=3-1", "items=0-1", ""]
+RANGE_HEADERS = [None, "bytes=0-0", "bytes=1-3", "bytes=-2", "bytes=2-", "bytes=0-1,3-4", "bytes=0-1,1-2", "bytes=9999-", "bytes=3-1", "items=0-1", "", "bytes=1-5",
+                 "bytes=2-8", "bytes=0-6", "bytes=1-4,6-8", "bytes=-7", "bytes=5-69990", "bytes=100-65700"]
 
 
 def norm_set_cookie(v):
@@ -282,7 +294,7 @@ def norm_set_cookie(v):
 def make_files(d):
     """small files used by File recipes: (path list)"""
     out = []
-    for name, size in (("empty.bin", 0), ("one.txt", 1), ("ten.txt", 10), ("big.bin", 70000), ("ünï.txt", 7), ("page.html", 33)):
+    for name, size in (("empty.bin", 0), ("one.txt", 1), ("ten.txt", 10), ("big.bin", 70000), ("ünï.txt", 7), ("page.html", 33), ("ctl\there\x1b.bin", 5)):
         p = os.path.join(d, name)
         with open(p, "wb") as f:
             f.write(bytes((0x80 | (i * 31 % 128)) for i in range(size)))
